@@ -161,7 +161,7 @@ Section Dict.
     set (raw2 := if is_nil sv then raw1 else set_nth 1 (norm_elem (norm_obj sc) vt y) raw1).
     assert (Hfeed : feeds fu sc (get_class sc ec) (Obj ec [PPlaceholder; PPlaceholder] true [] curE) (sk ++ sv)
                           (Obj ec raw2 true [] curE)).
-    { eapply feeds_app.
+    { apply (feeds_app fu sc (get_class sc ec) _ (Obj ec raw1 true [] curE) _ sk sv).
       - eapply feeds_eq; [exact F1|]. unfold raw1. destruct (is_nil sk); reflexivity.
       - eapply feeds_eq; [exact F2|]. unfold raw2. destruct (is_nil sv); reflexivity. }
     (* key and value read back from the entry *)
